@@ -695,8 +695,10 @@ def stage_witnesses(wrap, gvpq, flags, klist, stats, viol, known):
             ("w_oob_rle", {"op": "rle", "t": "u8", "w": 8, "hex": ws["w_oob_rle"].hex(), "reads": [1]}, "OOB"),
             ("w_oob_unpack", {"op": "unpack", "t": "u8", "w": 5, "hex": ws["w_oob_unpack"].hex(), "reads": [2]}, "OOB"),
             ("w_oob_dbp", {"op": "dbp", "t": "i32", "hex": ws["w_oob_dbp"].hex(), "reads": [5]}, "OOB"),
-            ("w_panic_dbp", {"op": "dbp", "t": "i32", "hex": ws["w_panic_dbp"].hex(), "reads": [5]}, "PANIC"),
-            ("w_panic_width", {"op": "unpack", "t": "u64", "w": 65, "hex": "010203040506070809", "reads": [1]}, "PANIC")]
+            # errors since the repairs of the miniblock count / bit width tests (model/PqDelta.v dbp_new, PqBits.v bit_unpack)
+            ("w_panic_dbp", {"op": "dbp", "t": "i32", "hex": ws["w_panic_dbp"].hex(), "reads": [5]}, "ERR"),
+            ("w_panic_width", {"op": "unpack", "t": "u64", "w": 65, "hex": "010203040506070809", "reads": [1]}, "ERR"),
+            ("w_over_read", {"op": "dbp", "t": "i32", "hex": "80010404020200000000", "reads": [5]}, "ERR")]
     real = common.run_harness(gvpq, [], [dict(c, id=n) for n, c, _ in bits], timeout=120)
     for (n, c, want), r in zip(bits, real):
         got = (r.get("out") or "ABORT").split()[0]
@@ -704,8 +706,8 @@ def stage_witnesses(wrap, gvpq, flags, klist, stats, viol, known):
         if got != want:
             mism.append({"witness": n, "gv_pq_case": c, "model_predicts": want, "engine": r})
         else:
-            kid = "cursor-unchecked-read" if want == "OOB" else ("dbp-miniblock-count-zero" if n == "w_panic_dbp" else "bit-width-above-64")
-            if any(k["id"] == kid for k in klist):
+            kid = "cursor-unchecked-read" if want == "OOB" else None
+            if kid and any(k["id"] == kid for k in klist):
                 e = known.setdefault(kid, {"n": 0, "example": None, "sites": set()})
                 e["n"] += 1
                 e["sites"].add("gv_pq " + n)
@@ -851,6 +853,14 @@ def mutations(rng, f, tier):
             if path == (2, "[0]", 5):
                 out.append(("lie-footer", "footer field 2/[0]/5 (int5) %d -> %d [regression 18c236890]" % (v, len(get_path(f.tree, (2,))[3])),
                             f.rebuild(f.tree, target=k, value=len(get_path(f.tree, (2,))[3]))))
+        # regression of the repaired chunk range defects (f3bd995b4): chunk offset / size beyond the file, always
+        for (k, kind, path, v) in sites:
+            if len(path) >= 2 and path[-2:] == (3, 9):
+                out.append(("lie-footer", "footer field %s (int6) %d -> 2147483647 [regression f3bd995b4]" % ("/".join(str(p) for p in path), v),
+                            f.rebuild(f.tree, target=k, value=2 ** 31 - 1)))
+            if len(path) >= 2 and path[-2:] == (3, 7):
+                out.append(("lie-footer", "footer field %s (int6) %d -> 2^62 [regression f3bd995b4]" % ("/".join(str(p) for p in path), v),
+                            f.rebuild(f.tree, target=k, value=2 ** 62)))
         for (k, kind, path, v) in pick:
             vals = [x for x in LIES.get(kind, LIES["int6"]) if x != v]
             if quick:
@@ -891,9 +901,9 @@ def stage_files(ctx, rng, wrap, gmodel, klist, stats, viol, known):
         for j, (kind, how, fb) in enumerate(mutations(rng, f, ctx["tier"])):
             if fb == f.b:
                 continue
-            if ctx["tier"] == "quick" and (row_count_lie(fb) or chunk_range_beyond_file(fb)):
+            if ctx["tier"] == "quick" and row_count_lie(fb):
                 slow += 1
-                if slow > 6:        # most of them run into the 20 s watchdog (classes rowgroup-num-rows-trusted, chunk-range-beyond-file)
+                if slow > 6:        # they run into the 20 s watchdog (class rowgroup-num-rows-trusted)
                     continue
             key = hash(fb)
             if key in seen:
